@@ -1262,14 +1262,18 @@ class ManifestRecursiveLoader:
                     if relpath in self.updated_manifests:
                         continue
 
-                # entries that come from a Manifest found only now were
-                # never checked by us: mtime says nothing about them
+                # entries that come from a Manifest found only now, or
+                # from one that is queued for rewriting (its entries
+                # may have been completed from dropped duplicates),
+                # were never checked by us: mtime says nothing about
+                # them
                 changed = update_entry_for_path(
                     os.path.join(dirpath, f),
                     fe,
                     hashes=hashes,
                     expected_dev=self.manifest_device,
-                    last_mtime=(None if mpath in new_manifests
+                    last_mtime=(None if (mpath in new_manifests or
+                                         mpath in self.updated_manifests)
                                 else last_mtime))
                 if changed and mpath is not None:
                     self.updated_manifests.add(mpath)
